@@ -275,6 +275,9 @@ def gen_amp_doc(rng: random.Random, n_lines=None, partial=True, cartesian=None, 
             r3 = rng.choice(list(CASCADE))
             if kind == "cascade-partial":
                 doc.append(["line", ["D", "D0", None, None, [["D", r3, None, None, []], ["D", BACHELOR[r3], None, None, []]]]] + coupling(rng))
+                if rng.random() < 0.3:
+                    # the same partial daughter under a second top line (another spin tag): it is expanded twice in one read
+                    doc.append(["line", ["D", "D0", rng.choice([None, "S", "D"]), None, [["D", r3, None, None, []], ["D", BACHELOR[r3], None, None, []]]]] + coupling(rng))
                 sublines.setdefault(r3, rng.randint(min_alts, 3))
             else:
                 r2, b = rng.choice(CASCADE[r3])
@@ -283,6 +286,7 @@ def gen_amp_doc(rng: random.Random, n_lines=None, partial=True, cartesian=None, 
                 inner = ["D", r3, wave, ls3, [two_body(rng, r2), ["D", b, None, None, []]]]
                 doc.append(["line", ["D", "D0", None, None, [inner, ["D", BACHELOR[r3], None, None, []]]]] + coupling(rng))
     # separately written lines for the partial daughters
+    deeper = {}
     for nm, k in sublines.items():
         for _ in range(k):
             if nm in PAIRS:
@@ -292,10 +296,14 @@ def gen_amp_doc(rng: random.Random, n_lines=None, partial=True, cartesian=None, 
                 part = partial and min_alts == 0 and r2 in LS_TAGS and rng.random() < 0.3
                 d2 = ["D", r2, None, None, []] if part else two_body(rng, r2)
                 if part and r2 not in sublines:
-                    pass
+                    # the partial line's own daughter is written separately too (substitution chained to depth 3)
+                    deeper.setdefault(r2, rng.randint(min_alts, 3))
                 wave = rng.choice([None, "D"]) if (nm in ("K(1)(1270)bar-", "a(1)(1260)+") and r2 in RES_V) else None
                 ls3 = rng.choice([None, "GSpline.EFF"])
                 doc.append(["line", ["D", nm, wave, ls3, [d2, ["D", b, None, None, []]]]] + coupling(rng))
+    for nm, k in deeper.items():
+        for _ in range(k):
+            doc.append(["line", two_body(rng, nm)] + coupling(rng))
     if params:
         for _ in range(rng.randint(0, 4)):
             doc.append(["variable", rng.choice(["D0_radius", "IS_p1_4pi", "sA", "s0_prod", "f_scatt1", "K(1)(1270)bar-_mass", "x::y"]),
